@@ -27,20 +27,25 @@ def _cfg(path, text):
 
 def _mc(res, work, tier):
     maxlen = 4 if tier == "quick" else 5
-    consts = ("Alphabet = {254, 253, 0, 1, 2, 97}\n  MaxLen = %d\n  Blocks = {0,1,2,3,4}\n"
-              "  MaxSizes = {1000000, 0, 1}\n" % maxlen)
-    cfg = _cfg(os.path.join(work, "StreamMC.cfg"),
-               "SPECIFICATION Spec\nCONSTANTS\n  %s  BugF1 = FALSE\nINVARIANTS ChunkerTiles ReaderExact\n"
-               "CHECK_DEADLOCK FALSE\n" % consts)
-    r = tlc.run_tlc("StreamMC", cfg, os.path.join(work, "mc"), workers=8, timeout=3000)
-    if r["violated"]:
-        raise core.ToolError("design check StreamMC violated %s (specification error):\n%s"
-                             % (r["violated"], r["out"][-3000:]))
-    res.add_mc("StreamMC: transcribed pump/next_record_bytes vs Tiles/Records, all streams <= %d x blocks 0..4 "
-               "x judge parameters" % maxlen, r, consts.replace("\n", ";"))
+    plans = [("standard judge", maxlen, "{{}}", "{{}}"),
+             ("judge family (skip / stop at chosen offsets)", 3) + (("{{}, {0}, {2}}", "{{}, {0}, {2}}") if tier == "quick"
+                                                                    else ("{{}, {0}, {1}, {2}, {3}}", "{{}, {0}, {1}, {2}, {3}}"))]
+    for what, ml, sk, sp in plans:
+        consts = ("Alphabet = {254, 253, 0, 1, 2, 97}\n  MaxLen = %d\n  Blocks = {0,1,2,3,4}\n"
+                  "  MaxSizes = {1000000, 0, 1}\n  SkipSets = %s\n  StopSets = %s\n" % (ml, sk, sp))
+        cfg = _cfg(os.path.join(work, "StreamMC_%d.cfg" % ml),
+                   "SPECIFICATION Spec\nCONSTANTS\n  %s  BugF1 = FALSE\nINVARIANTS ChunkerTiles ReaderExact StdAgrees\n"
+                   "CHECK_DEADLOCK FALSE\n" % consts)
+        r = tlc.run_tlc("StreamMC", cfg, os.path.join(work, "mc"), workers=8, timeout=3000)
+        if r["violated"]:
+            raise core.ToolError("design check StreamMC violated %s (specification error):\n%s"
+                                 % (r["violated"], r["out"][-3000:]))
+        res.add_mc("StreamMC (%s): transcribed pump/next_record_bytes vs Tiles/Records, all streams <= %d x blocks 0..4 "
+                   "x judge parameters" % (what, ml), r, consts.replace("\n", ";"))
+    consts = ("Alphabet = {254, 253, 0, 1, 2, 97}\n  MaxLen = 3\n  Blocks = {0,1,2,3,4}\n  MaxSizes = {1000000}\n"
+              "  SkipSets = {{}}\n  StopSets = {{}}\n")
     cfgb = _cfg(os.path.join(work, "StreamMC_bug.cfg"),
-                "SPECIFICATION Spec\nCONSTANTS\n  %s  BugF1 = TRUE\nINVARIANTS ChunkerTiles\nCHECK_DEADLOCK FALSE\n"
-                % consts.replace("MaxLen = %d" % maxlen, "MaxLen = 3"))
+                "SPECIFICATION Spec\nCONSTANTS\n  %s  BugF1 = TRUE\nINVARIANTS ChunkerTiles\nCHECK_DEADLOCK FALSE\n" % consts)
     rb = tlc.run_tlc("StreamMC", cfgb, os.path.join(work, "mcb"), workers=4, timeout=600)
     if rb["violated"] != "ChunkerTiles":
         raise core.ToolError("StreamMC with BugF1=TRUE should violate ChunkerTiles, got %r" % rb["violated"])
@@ -162,6 +167,16 @@ def run_stream(res, work, tier, seed):
                         runs.append({"run": rid, "cfg": {"kind": "reader", "stream": list(s), "block": block,
                                                          "sched": rng.choice(SCHEDS), "max": mx, "limit": lim},
                                      "ops": []})
+    # the judge family: skip / stop at chosen offsets (the configuration space of the second StreamMC run, sampled per stream)
+    for n in range(0, 4):
+        for s in itertools.product(ALPHA, repeat=n):
+            for block in (0, 2, 3):
+                for _ in range(2 if tier == "quick" else 6):
+                    rid += 1
+                    runs.append({"run": rid, "cfg": {"kind": "reader", "stream": list(s), "block": block, "sched": rng.choice(SCHEDS),
+                                                     "max": rng.choice([-1, 0, 1]), "limit": rng.choice([-1, -1, 2]),
+                                                     "skip_at": rng.choice([[], [0], [1], [2], [3]]),
+                                                     "stop_at": rng.choice([[], [], [0], [1], [2], [3]])}, "ops": []})
     n_enum = rid
     # (2) seeded record-rich / faulty streams
     for s in _random_streams(rng, tier):
@@ -174,8 +189,13 @@ def run_stream(res, work, tier, seed):
             rid += 1
             mx = rng.choice([-1, -1, 0, 1, 5, 40, 252, 300])
             lim = rng.choice([-1, -1, 0, 1, 2, len(s) // 2, len(s), len(s) + 5]) if s else -1
-            runs.append({"run": rid, "cfg": {"kind": "reader", "stream": s, "block": block, "sched": sched,
-                                             "max": mx, "limit": lim}, "ops": []})
+            cfgr = {"kind": "reader", "stream": s, "block": block, "sched": sched, "max": mx, "limit": lim}
+            if rng.random() < 0.3 and s:
+                # offsets where records start / delimiters end are the interesting ones
+                pts = [0] + [i + 2 for i in range(len(s) - 1) if s[i] == FE and s[i + 1] == FD]
+                cfgr["skip_at"] = sorted(set(rng.choice(pts) for _ in range(rng.randrange(0, 3))))
+                cfgr["stop_at"] = sorted(set(rng.choice(pts) for _ in range(rng.randrange(0, 2))))
+            runs.append({"run": rid, "cfg": cfgr, "ops": []})
     trace = core.drive("stream", runs, work, "stream")
     tv = tlc.validate_trace("StreamTrace", "StreamTrace.cfg", trace, os.path.join(work, "tv"), timeout=3000)
     by_id = {r["run"]: r for r in runs}
